@@ -133,7 +133,99 @@ def gen(rng, tier):
             for kind, k in probes:
                 out.append(Case("arr_iter_adapt", "i64", fam, "-", dims, coef + [kind, k], mop="-",
                                 tag="iter_adaptors_rank%d_%s" % (len(dims), fam)))
+    # labelled construction from a NESTED sequence (from_multi_iter, the marr_d2! / marr_d3! macros): the nesting must be
+    # the shape; a transposed, ragged, short or over-long nesting is refused (model: Arr.from_nested, theorem
+    # labelled_shape_inv), never re-cut into the declared shape
+    for dims in shapes(4 if tier != "quick" else 3):
+        if len(dims) == 1:
+            continue
+        for fam in [f for f in fams_for(dims) if f != "unl"]:
+            for spec in nestings(rng, dims, 4 if tier == "quick" else 12):
+                out.append(Case("arr_nested", "i64", fam, "-", dims, spec, mop="-",
+                                tag="nested_input_rank%d_%s" % (len(dims), fam)))
     return out
+
+
+def nest2(rows):
+    return [len(rows)] + list(rows)
+
+
+def nestings(rng, dims, nbad):
+    """the well-shaped nesting of `dims` and malformed ones with (mostly) the same or a larger number of cells"""
+    def good2(n0, n1):
+        return [n1] * n0
+
+    def bad2(n0, n1):
+        out = [[n0] * n1]                                         # transposed
+        if n0 >= 1:
+            out.append([n1] * (n0 + 1))                            # a surplus row
+            out.append([n1 + 1] * n0)                              # over-long rows
+            out.append([n1] * (n0 - 1))                            # a row short
+        if n0 >= 2:
+            r = [n1] * n0
+            r[0] += 1
+            r[-1] = max(r[-1] - 1, 0)
+            out.append(r)                                          # ragged, same number of cells
+            out.append([n0 * n1] + [0] * (n0 - 1))                 # everything in the first row
+        out.append([1] * (n0 * n1))                                # one cell per row
+        return [r for r in out if r != good2(n0, n1)]
+    if len(dims) == 2:
+        n0, n1 = dims
+        specs = [nest2(good2(n0, n1))] + [nest2(r) for r in bad2(n0, n1)]
+    else:
+        n0, n1, n2 = dims
+        good = [good2(n1, n2)] * n0
+        specs = [[n0] + sum((nest2(r) for r in good), [])]
+        bads = []
+        for r in bad2(n1, n2):
+            if n0 >= 1:
+                k = rng.below(n0)
+                bads.append(good[:k] + [r] + good[k + 1:])         # one malformed slab
+        bads.append([good2(n1, n2)] * (n0 + 1))                    # a surplus slab
+        if n0 >= 1:
+            bads.append([good2(n1, n2)] * (n0 - 1))                # a slab short
+        bads.append([good2(n0, n2)] * n1)                          # outer levels exchanged
+        bads.append([good2(n1, n0)] * n2)                          # outermost and innermost exchanged
+        for b in bads:
+            if b != good:
+                specs.append([len(b)] + sum((nest2(r) for r in b), []))
+    seen, uniq = set(), []
+    for sp in specs:
+        if tuple(sp) not in seen:
+            seen.add(tuple(sp))
+            uniq.append(sp)
+    head, rest = uniq[:1], uniq[1:]
+    if len(rest) > nbad:
+        rest = rng.shuffle(rest)[:nbad]
+    return head + rest
+
+
+def nested_predicates(c, ri):
+    if ri[0] != "OK":
+        return ["construction from a nested sequence failed: %s" % (ri,)]
+    log = [int(v) for v in ri[1]]
+    dims, spec = c.dims, [int(v) for v in c.nums]
+    if len(dims) == 2:
+        nesting = spec[1:1 + spec[0]]
+        wellshaped = spec[0] == dims[0] and all(r == dims[1] for r in nesting)
+        cells = sum(nesting)
+    else:
+        p, slabs = 1, []
+        for _ in range(spec[0]):
+            n = spec[p]
+            slabs.append(spec[p + 1:p + 1 + n])
+            p += 1 + n
+        wellshaped = len(slabs) == dims[0] and all(len(sl) == dims[1] and all(r == dims[2] for r in sl) for sl in slabs)
+        cells = sum(sum(sl) for sl in slabs)
+    if wellshaped:
+        if log != list(range(1, cells + 1)):
+            return ["a %s array of shape %s built from a well-shaped nested sequence holds %s instead of its cells in "
+                    "row-major order" % (c.fam, dims, log[:30])]
+        return []
+    if log != [-1]:
+        return ["a %s array of shape %s was built from a nested sequence of another shape (nesting %s) instead of being "
+                "refused: cells %s" % (c.fam, dims, spec, log[:30])]
+    return []
 
 
 def lex(dims):
@@ -185,7 +277,7 @@ def adapt_predicates(c, ri):
 def compare(c, ri, rm):
     if ri[0] == "BAD":
         return "harness error: " + ri[1]
-    if c.op == "arr_iter_adapt":
+    if c.op in ("arr_iter_adapt", "arr_nested"):
         return None    # no model run: decided by the predicate
     if ri[0] != "OK" or rm[0] != "OK":
         return "run failed: %s / %s" % (ri[0], rm[0])
@@ -204,5 +296,7 @@ def predicates(c, ri, rm):
     # concrete failing history of the property (the model is proved equal to the flat-vector spec)
     if c.op == "arr_iter_adapt":
         return adapt_predicates(c, ri)
+    if c.op == "arr_nested":
+        return nested_predicates(c, ri)
     m = compare(c, ri, rm)
     return ["array history diverges from the flat row-major specification: " + m] if m else []
